@@ -452,7 +452,7 @@ under a declared output schema; otherwise the observation differs from the ideal
 chains reported the clause. -/
 def Fires (d : ToolD) (ci : CallIn) (o : Obs) (c : Clause) : Prop :=
   (o.res = .panic ∧ (c = .f12Panic ∨ c = .panicked)) ∨
-  (c = .f16 ∧ d.osch.isSome = true ∧ o.res = .ok ∧ o.sc = none) ∨
+  ((c = .f16 ∨ c = .scMissing) ∧ d.osch.isSome = true ∧ o.res = .ok ∧ o.sc = none) ∨
   (o.res ≠ .panic ∧ sameObs o (io d ci) = false ∧ (FiresD d ci o c ∨ FiresC ci o (io d ci) c))
 
 theorem monitor_fires {d : ToolD} {ci : CallIn} {o : Obs} {c : Clause}
@@ -466,9 +466,11 @@ theorem monitor_fires {d : ToolD} {ci : CallIn} {o : Obs} {c : Clause}
   · simp only [h1, Bool.false_eq_true, if_false] at h
     have n1 : o.res ≠ .panic := by simpa using h1
     by_cases h2 : (d.osch.isSome && o.res == Res.ok && o.sc.isNone) = true
-    · simp only [h2, if_true] at h; cases h
+    · simp only [h2, if_true] at h
       simp only [Bool.and_eq_true, beq_iff_eq, Option.isNone_iff_eq_none] at h2
-      exact .inr (.inl ⟨rfl, h2.1.1, h2.1.2, h2.2⟩)
+      split at h <;> cases h
+      · exact .inr (.inl ⟨.inl rfl, h2.1.1, h2.1.2, h2.2⟩)
+      · exact .inr (.inl ⟨.inr rfl, h2.1.1, h2.1.2, h2.2⟩)
     · simp only [h2, Bool.false_eq_true, if_false] at h
       by_cases h3 : sameObs o (obsOf (ideal d ci)) = true
       · simp [h3] at h
@@ -522,15 +524,17 @@ theorem seen_mismatch {d : ToolD} {ci : CallIn} {o : Obs}
 
 /-- C16/F12 and "the typed tool wrapper panicked" -/
 theorem sound_f12Panic (d : ToolD) (ci : CallIn) (o : Obs) (h : monitor d ci o = some .f12Panic) : ¬ P_no_crash o := by
-  rcases monitor_fires h with ⟨hp, _⟩ | ⟨hc, _⟩ | ⟨_, _, hd | hc⟩
+  rcases monitor_fires h with ⟨hp, _⟩ | ⟨hc | hc, _⟩ | ⟨_, _, hd | hc⟩
   · exact fun hP => hP hp
+  · cases hc
   · cases hc
   · exact hd.elim
   · exact hc.elim
 
 theorem sound_panicked (d : ToolD) (ci : CallIn) (o : Obs) (h : monitor d ci o = some .panicked) : ¬ P_no_crash o := by
-  rcases monitor_fires h with ⟨hp, _⟩ | ⟨hc, _⟩ | ⟨_, _, hd | hc⟩
+  rcases monitor_fires h with ⟨hp, _⟩ | ⟨hc | hc, _⟩ | ⟨_, _, hd | hc⟩
   · exact fun hP => hP hp
+  · cases hc
   · cases hc
   · exact hd.elim
   · exact hc.elim
@@ -546,10 +550,49 @@ theorem sound_f16 (d : ToolD) (ci : CallIn) (o : Obs) (h : monitor d ci o = some
   · exact hd.elim
   · exact hc.elim
 
+/-- success_has_structured: a successful result without structured content under a declared output type or
+schema, whatever the handler's output was and whatever protocol version the session runs at (the shape of
+seeded change C16-m11: non-object structured content dropped for peers older than SEP-2106) -/
+theorem sound_scMissing (d : ToolD) (ci : CallIn) (o : Obs) (h : monitor d ci o = some .scMissing) :
+    ¬ P_success_has_structured d o := by
+  rcases monitor_fires h with ⟨_, hc | hc⟩ | ⟨_, h1, h2, h3⟩ | ⟨_, _, hd | hc⟩
+  · cases hc
+  · cases hc
+  · intro hP
+    have := hP h1 h2
+    rw [h3] at this; cases this
+  · exact hd.elim
+  · exact hc.elim
+
+/-- the two clauses differ only in the handler's output: `f16` is the nil `any`, `scMissing` everything else -/
+theorem scMissing_iff (d : ToolD) (ci : CallIn) (o : Obs) (hp : o.res ≠ .panic) :
+    monitor d ci o = some .scMissing ↔
+      (d.osch.isSome = true ∧ o.res = .ok ∧ o.sc = none ∧ isNilAny (ci.h .null).out = false) := by
+  constructor
+  · intro h
+    rcases monitor_fires h with ⟨hp', _⟩ | ⟨_, h1, h2, h3⟩ | ⟨_, _, hd | hc⟩
+    · exact absurd hp' hp
+    · refine ⟨h1, h2, h3, ?_⟩
+      unfold monitor at h
+      have e1 : (o.res == Res.panic) = false := by simpa using hp
+      have e2 : (d.osch.isSome && o.res == Res.ok && o.sc.isNone) = true := by simp [h1, h2, h3]
+      simp only [e1, e2, Bool.false_eq_true, if_false, if_true] at h
+      cases hn : isNilAny (ci.h .null).out with
+      | false => rfl
+      | true => simp [hn] at h
+    · exact hd.elim
+    · exact hc.elim
+  · rintro ⟨h1, h2, h3, h4⟩
+    unfold monitor
+    have e1 : (o.res == Res.panic) = false := by simpa using hp
+    have e2 : (d.osch.isSome && o.res == Res.ok && o.sc.isNone) = true := by simp [h1, h2, h3]
+    simp only [e1, e2, h4, Bool.false_eq_true, if_false, if_true]
+
 /-- C16/F12, null arguments seen as null -/
 theorem sound_f12NullSeen (d : ToolD) (ci : CallIn) (o : Obs) (h : monitor d ci o = some .f12NullSeen) :
     ¬ P_receives_exactly d ci o := by
-  rcases monitor_fires h with ⟨_, hc | hc⟩ | ⟨hc, _⟩ | ⟨_, hne, hd | hc⟩
+  rcases monitor_fires h with ⟨_, hc | hc⟩ | ⟨hc | hc, _⟩ | ⟨_, hne, hd | hc⟩
+  · cases hc
   · cases hc
   · cases hc
   · cases hc
@@ -560,7 +603,8 @@ theorem sound_f12NullSeen (d : ToolD) (ci : CallIn) (o : Obs) (h : monitor d ci 
 /-- handler_receives_exact_integers -/
 theorem sound_recvExact (d : ToolD) (ci : CallIn) (o : Obs) (p : String) (a b : Dec)
     (h : monitor d ci o = some (.recvExact p a b)) : ¬ P_receives_exactly d ci o := by
-  rcases monitor_fires h with ⟨_, hc | hc⟩ | ⟨hc, _⟩ | ⟨_, _, hd | hc⟩
+  rcases monitor_fires h with ⟨_, hc | hc⟩ | ⟨hc | hc, _⟩ | ⟨_, _, hd | hc⟩
+  · cases hc
   · cases hc
   · cases hc
   · cases hc
@@ -571,7 +615,8 @@ theorem sound_recvExact (d : ToolD) (ci : CallIn) (o : Obs) (p : String) (a b : 
 /-- handler_sees_exactly_validated_members -/
 theorem sound_members (d : ToolD) (ci : CallIn) (o : Obs) (p : String)
     (h : monitor d ci o = some (.members p)) : ¬ P_receives_exactly d ci o := by
-  rcases monitor_fires h with ⟨_, hc | hc⟩ | ⟨hc, _⟩ | ⟨_, _, hd | hc⟩
+  rcases monitor_fires h with ⟨_, hc | hc⟩ | ⟨hc | hc, _⟩ | ⟨_, _, hd | hc⟩
+  · cases hc
   · cases hc
   · cases hc
   · cases hc
@@ -581,7 +626,8 @@ theorem sound_members (d : ToolD) (ci : CallIn) (o : Obs) (p : String)
 /-- handler_sees_defaulted_args -/
 theorem sound_seesDefaulted (d : ToolD) (ci : CallIn) (o : Obs)
     (h : monitor d ci o = some .seesDefaulted) : ¬ P_receives_exactly d ci o := by
-  rcases monitor_fires h with ⟨_, hc | hc⟩ | ⟨hc, _⟩ | ⟨_, _, hd | hc⟩
+  rcases monitor_fires h with ⟨_, hc | hc⟩ | ⟨hc | hc, _⟩ | ⟨_, _, hd | hc⟩
+  · cases hc
   · cases hc
   · cases hc
   · cases hc
@@ -591,7 +637,8 @@ theorem sound_seesDefaulted (d : ToolD) (ci : CallIn) (o : Obs)
 /-- invoked_iff_valid_after_defaults: valid, not invoked -/
 theorem sound_notInvoked (d : ToolD) (ci : CallIn) (o : Obs)
     (h : monitor d ci o = some .notInvoked) : ¬ P_valid_is_invoked d ci o := by
-  rcases monitor_fires h with ⟨_, hc | hc⟩ | ⟨hc, _⟩ | ⟨_, _, hd | hc⟩
+  rcases monitor_fires h with ⟨_, hc | hc⟩ | ⟨hc | hc, _⟩ | ⟨_, _, hd | hc⟩
+  · cases hc
   · cases hc
   · cases hc
   · cases hc
@@ -603,7 +650,8 @@ theorem sound_notInvoked (d : ToolD) (ci : CallIn) (o : Obs)
 /-- invoked_iff_valid_after_defaults: valid, refused as by a signed-only decode -/
 theorem sound_u64Refused (d : ToolD) (ci : CallIn) (o : Obs)
     (h : monitor d ci o = some .u64Refused) : ¬ P_valid_is_invoked d ci o := by
-  rcases monitor_fires h with ⟨_, hc | hc⟩ | ⟨hc, _⟩ | ⟨_, _, hd | hc⟩
+  rcases monitor_fires h with ⟨_, hc | hc⟩ | ⟨hc | hc, _⟩ | ⟨_, _, hd | hc⟩
+  · cases hc
   · cases hc
   · cases hc
   · cases hc
@@ -616,7 +664,8 @@ theorem sound_u64Refused (d : ToolD) (ci : CallIn) (o : Obs)
 /-- invoked_iff_valid_after_defaults: ran on invalid arguments -/
 theorem sound_invokedInvalid (d : ToolD) (ci : CallIn) (o : Obs)
     (h : monitor d ci o = some .invokedInvalid) : ¬ P_invoked_only_if_valid d ci o := by
-  rcases monitor_fires h with ⟨_, hc | hc⟩ | ⟨hc, _⟩ | ⟨_, _, hd | hc⟩
+  rcases monitor_fires h with ⟨_, hc | hc⟩ | ⟨hc | hc, _⟩ | ⟨_, _, hd | hc⟩
+  · cases hc
   · cases hc
   · cases hc
   · cases hc
@@ -630,7 +679,8 @@ theorem sound_invokedInvalid (d : ToolD) (ci : CallIn) (o : Obs)
 /-- invalid_gives_tool_error_without_invocation -/
 theorem sound_invalidNoToolErr (d : ToolD) (ci : CallIn) (o : Obs)
     (h : monitor d ci o = some .invalidNoToolErr) : ¬ P_invalid_gives_tool_error d ci o := by
-  rcases monitor_fires h with ⟨_, hc | hc⟩ | ⟨hc, _⟩ | ⟨_, _, hd | hc⟩
+  rcases monitor_fires h with ⟨_, hc | hc⟩ | ⟨hc | hc, _⟩ | ⟨_, _, hd | hc⟩
+  · cases hc
   · cases hc
   · cases hc
   · cases hc
@@ -698,7 +748,8 @@ theorem demanded_kind_not_ok {d : ToolD} {y : JVal} {r : HRet} (h : (demanded d 
 /-- invalid_output_is_error_not_result -/
 theorem sound_invalidOutReturned (d : ToolD) (ci : CallIn) (o : Obs) (hsc : ci.Scripted)
     (h : monitor d ci o = some .invalidOutReturned) : ¬ P_invalid_output_is_error d ci o := by
-  rcases monitor_fires h with ⟨_, hc | hc⟩ | ⟨hc, _⟩ | ⟨_, _, hd | hc⟩
+  rcases monitor_fires h with ⟨_, hc | hc⟩ | ⟨hc | hc, _⟩ | ⟨_, _, hd | hc⟩
+  · cases hc
   · cases hc
   · cases hc
   · cases hc
@@ -722,7 +773,8 @@ theorem sound_invalidOutReturned (d : ToolD) (ci : CallIn) (o : Obs) (hsc : ci.S
 /-- structured_valid: schema-valid output not returned as a success -/
 theorem sound_validOutRefused (d : ToolD) (ci : CallIn) (o : Obs)
     (h : monitor d ci o = some .validOutRefused) : ¬ P_valid_output_succeeds d ci o := by
-  rcases monitor_fires h with ⟨_, hc | hc⟩ | ⟨hc, _⟩ | ⟨_, _, hd | hc⟩
+  rcases monitor_fires h with ⟨_, hc | hc⟩ | ⟨hc | hc, _⟩ | ⟨_, _, hd | hc⟩
+  · cases hc
   · cases hc
   · cases hc
   · cases hc
@@ -741,7 +793,8 @@ theorem sound_validOutRefused (d : ToolD) (ci : CallIn) (o : Obs)
 /-- "result kind differs from the wrapper's contract" -/
 theorem sound_kindDiffers (d : ToolD) (ci : CallIn) (o : Obs)
     (h : monitor d ci o = some .kindDiffers) : ¬ P_error_kinds d ci o := by
-  rcases monitor_fires h with ⟨_, hc | hc⟩ | ⟨hc, _⟩ | ⟨_, _, hd | hc⟩
+  rcases monitor_fires h with ⟨_, hc | hc⟩ | ⟨hc | hc, _⟩ | ⟨_, _, hd | hc⟩
+  · cases hc
   · cases hc
   · cases hc
   · cases hc
@@ -787,7 +840,8 @@ theorem sc_mismatch {d : ToolD} {ci : CallIn} {o : Obs}
 /-- structured_equals_output_json_with_defaults -/
 theorem sound_scDiffers (d : ToolD) (ci : CallIn) (o : Obs)
     (h : monitor d ci o = some .scDiffers) : ¬ P_structured_equals d ci o := by
-  rcases monitor_fires h with ⟨_, hc | hc⟩ | ⟨hc, _⟩ | ⟨_, _, hd | hc⟩
+  rcases monitor_fires h with ⟨_, hc | hc⟩ | ⟨hc | hc, _⟩ | ⟨_, _, hd | hc⟩
+  · cases hc
   · cases hc
   · cases hc
   · cases hc
@@ -798,7 +852,8 @@ theorem sound_scDiffers (d : ToolD) (ci : CallIn) (o : Obs)
 /-- result_carries_exact_integers -/
 theorem sound_carryExact (d : ToolD) (ci : CallIn) (o : Obs) (p : String) (a b : Dec)
     (h : monitor d ci o = some (.carryExact p a b)) : ¬ P_structured_equals d ci o := by
-  rcases monitor_fires h with ⟨_, hc | hc⟩ | ⟨hc, _⟩ | ⟨_, _, hd | hc⟩
+  rcases monitor_fires h with ⟨_, hc | hc⟩ | ⟨hc | hc, _⟩ | ⟨_, _, hd | hc⟩
+  · cases hc
   · cases hc
   · cases hc
   · cases hc
@@ -813,7 +868,8 @@ theorem sound_carryExact (d : ToolD) (ci : CallIn) (o : Obs) (p : String) (a b :
 /-- text_fallback_iff_no_content -/
 theorem sound_contentDiffers (d : ToolD) (ci : CallIn) (o : Obs)
     (h : monitor d ci o = some .contentDiffers) : ¬ P_text_fallback d ci o := by
-  rcases monitor_fires h with ⟨_, hc | hc⟩ | ⟨hc, _⟩ | ⟨_, _, hd | hc⟩
+  rcases monitor_fires h with ⟨_, hc | hc⟩ | ⟨hc | hc, _⟩ | ⟨_, _, hd | hc⟩
+  · cases hc
   · cases hc
   · cases hc
   · cases hc
@@ -839,7 +895,8 @@ theorem demanded_nilPtr (d : ToolD) (y : JVal) (r : HRet) (h : r.out = .nilPtr) 
 /-- nil_pointer_output_uses_zero_value -/
 theorem sound_nilPtr (d : ToolD) (ci : CallIn) (o : Obs) (hsc : ci.Scripted)
     (h : monitor d ci o = some .nilPtr) : ¬ P_nil_pointer_zero d ci o := by
-  rcases monitor_fires h with ⟨_, hc | hc⟩ | ⟨hc, _⟩ | ⟨_, _, hd | hc⟩
+  rcases monitor_fires h with ⟨_, hc | hc⟩ | ⟨hc | hc, _⟩ | ⟨_, _, hd | hc⟩
+  · cases hc
   · cases hc
   · cases hc
   · cases hc
@@ -896,7 +953,8 @@ theorem demanded_not_ok_content {d : ToolD} {y : JVal} {r : HRet} :
 /-- "the content of an error differs from the wrapper's contract" -/
 theorem sound_errContent (d : ToolD) (ci : CallIn) (o : Obs)
     (h : monitor d ci o = some .errContent) : ¬ P_error_content o := by
-  rcases monitor_fires h with ⟨_, hc | hc⟩ | ⟨hc, _⟩ | ⟨_, _, hd | hc⟩
+  rcases monitor_fires h with ⟨_, hc | hc⟩ | ⟨hc | hc, _⟩ | ⟨_, _, hd | hc⟩
+  · cases hc
   · cases hc
   · cases hc
   · cases hc
@@ -1052,7 +1110,7 @@ theorem monitor_none (d : ToolD) (ci : CallIn) (o : Obs) (h : monitor d ci o = n
   split at h
   · split at h <;> cases h
   · split at h
-    · cases h
+    · split at h <;> cases h
     · split at h
       · assumption
       · cases hd : monDiag d ci o with
@@ -1235,7 +1293,7 @@ def runState (d : MState) : List Rec → MState
 def bookedRev : List Rec → String → Option (GoTy × GoTy × Schema × Option Schema)
   | [], _ => none
   | .reset :: _, _ => none
-  | .server _ :: _, _ => none
+  | .server _ _ :: _, _ => none
   | .call _ _ _ _ _ :: rest, n => bookedRev rest n
   | .tool t o :: rest, n =>
     if o.isOk && t.name == n then some (t.ity, t.oty, t.ownIn, t.ownOut) else bookedRev rest n
@@ -1244,7 +1302,7 @@ def bookedRev : List Rec → String → Option (GoTy × GoTy × Schema × Option
 def lastRev : List Rec → Option String
   | [] => none
   | .reset :: _ => none
-  | .server _ :: _ => none
+  | .server _ _ :: _ => none
   | .call _ _ _ _ _ :: rest => lastRev rest
   | .tool t o :: rest => if o.isOk then some t.name else lastRev rest
 
@@ -1297,7 +1355,7 @@ theorem tys_booked (rtr : List Rec) (n : String) :
     rw [List.reverse_cons, runState_append]
     cases r with
     | reset => exact ⟨rfl, rfl⟩
-    | server k => exact ⟨rfl, rfl⟩
+    | server k v => exact ⟨rfl, rfl⟩
     | call name c o lib olib => rw [mstep_call_fst]; exact ih
     | tool t o =>
       obtain ⟨h1, h2⟩ := mstep_tool_book (runState {} rest.reverse) t o
@@ -1438,7 +1496,10 @@ example : (monitor fD (fCall 7) { fGood with seen := some (.obj [("c", .str "x")
 example : isClause (monitor fD (fCall 7) { fGood with res := .panic }) (fun | .panicked => true | _ => false) = true := by decide
 example : isClause (monitor fD { fCall 7 with args := .val .null, argsNull := true } { fGood with res := .panic })
     (fun | .f12Panic => true | _ => false) = true := by decide
-example : isClause (monitor fD (fCall 7) { fGood with sc := none }) (fun | .f16 => true | _ => false) = true := by decide
+example : isClause (monitor fD (fCall 7) { fGood with sc := none }) (fun | .scMissing => true | _ => false) = true := by decide
+/-- … and the F16 shape proper: Out = any, a declared output schema, a nil output -/
+example : isClause (monitor { fD with oty := .any } { fCall 7 with h := fun _ => { out := .nilAny }, hout := none } { fGood with sc := none })
+    (fun | .f16 => true | _ => false) = true := by decide
 example : isClause (monitor fD (fCall 7) { fGood with inv := some false }) (fun | .notInvoked => true | _ => false) = true := by decide
 /-- `{}` lacks the required `n` -/
 example : isClause (monitor fD { fCall 7 with args := .val (.obj []) } fGood) (fun | .invokedInvalid => true | _ => false) = true := by decide
